@@ -1128,6 +1128,20 @@ pub fn check(world: &World, sc: &C17, sandbox: &str) -> Report {
     }
     rep.probe("cli_runs", 1);
     rep.probe("clock_readings", o.counters[1]);
+    // simulated wall-clock time covered by this run: the deltas of the script that were consumed
+    if let Some((_, ds)) = sc.clock.split_once(':') {
+        let deltas: Vec<i64> = ds.split(',').filter_map(|x| x.parse().ok()).collect();
+        if !deltas.is_empty() {
+            let n = o.counters[1] as usize;
+            let (mut fwd, mut back) = (0u64, 0u64);
+            for i in 0..n {
+                let d = deltas[i.min(deltas.len() - 1)];
+                if d >= 0 { fwd += d as u64 } else { back += (-d) as u64 }
+            }
+            rep.probe("simulated_clock_forward_ms", fwd);
+            rep.probe("simulated_clock_backward_ms", back);
+        }
+    }
     rep.probe("intercepted_io_calls", o.counters[2] + o.counters[3] + o.counters[4] + o.counters[5] + o.counters[6]);
     // `{:?}` of the duplicate table is hash-order dependent and timing lines are clock dependent:
     // both are functions of the simulated environment, so the whole stdout belongs to the event log
